@@ -29,12 +29,6 @@ HAND = {
     "commut-hash-ignores-key": ("dds/fun_args.py", '''        b = hashlib.sha256(kv[0].encode("utf-8"))
         b.update(kv[1].encode("utf-8"))''', '''        b = hashlib.sha256(b"")
         b.update(kv[1].encode("utf-8"))''', ["C01", "C13"]),
-    "module-name-in-signature": ("dds/introspect.py", '''    all_pairs: List[Tuple[HK, PyHash]] = (
-        body
-''', '''    all_pairs: List[Tuple[HK, PyHash]] = (
-        body
-        + [(HK("module"), dds_hash(str(ext_deps is not None and arg_ctx.inner_call_key is None and __name__)))]
-''', []),
     "fun-path-in-signature": ("dds/introspect.py", '''        return_sig = _build_return_sig(
             body_sig=body_sig,
             arg_ctx=arg_ctx,
@@ -58,7 +52,6 @@ HAND = {
                 if path is not None
                 else store_paths
             )''', ["C04"]),
-    "skip-sync-when-root-cached": ("dds/_api.py", '''        if ProcessingStage.PATH_COMMIT in stages:''', '''        if ProcessingStage.PATH_COMMIT in stages and not (path is not None and "res" in dir() and _was_cached):''', []),
     "store-blob-in-finally": ("dds/_api.py", '''        t = _time()
         res = fun(*args, **kwargs)
         _add_delta(t, ProcessingStage.STORE_COMMIT)
@@ -124,12 +117,11 @@ HAND = {
             return _algo_bytes(struct.pack("!d", elt + 0.0 if elt else 0.0))''', ["C05"]),
     "list-hash-without-separator": ("dds/fun_args.py", '''                "|".join([_dds_hash(y, idx) for (idx, y) in enumerate(elt)])''', '''                "".join(sorted([_dds_hash(y, idx) for (idx, y) in enumerate(elt)]))''', ["C05"]),
     "dbfs-links-only-copies": ("dds/codecs/databricks.py", "                if self._commit_type == CommitType.FULL:", "                if self._commit_type != CommitType.NO_COMMIT:", ["C19"]),
-    "accept-prefix-substring": ("dds/_eval_ctx.py", '''            if ".".join(cp._path.parts[:idx]) in self.whitelisted_packages:
+    "accept-prefix-without-dot-boundary": ("dds/_eval_ctx.py", '''            if ".".join(cp._path.parts[:idx]) in self.whitelisted_packages:
                 return True''', '''            if ".".join(cp._path.parts[:idx]) in self.whitelisted_packages:
                 return True
-            if idx and any(w.startswith(".".join(cp._path.parts[:idx]) + "_") for w in self.whitelisted_packages):
+            if idx == 1 and any(cp._path.parts[0].startswith(w) for w in self.whitelisted_packages if "." not in w and not w.startswith("__") and w != "dds"):
                 return True''', ["C14"]),
-    "fetch-paths-follows-first-link-only": ("dds/store.py", '''                rp = os.path.realpath(loc)''', '''                rp = os.readlink(loc) if os.path.islink(loc) else loc''', []),
     "data-dir-not-absolute": ("dds/store.py", "        self._data_root = os.path.abspath(data_dir)", "        self._data_root = data_dir", ["C16"]),
 }
 
